@@ -45,7 +45,7 @@ def decision(ctx):
     vecs.sort(key=vf.canon)
     for i, v in enumerate(vecs):
         v["id"] = i
-        v["pty"] = (not quick) or (i % 5 == ctx.seed % 5)
+        v["pty"] = (i % (5 if quick else 3)) == ctx.seed % (5 if quick else 3)
     import os
     inp = os.path.join(ctx.work, "shell_cases.json")
     vf.write_json(inp, {"cases": vecs})
@@ -102,7 +102,7 @@ def sessions(ctx):
         caught[d] = r.violated
         if not r.violated:
             raise vf.Infra("deviation %s not detected by the counter invariants" % d)
-    runs = [(1, 4, 2, 4), (2, 4, 2, 4)] if quick else [(1, 6, 6, 12), (2, 8, 6, 12), (3, 8, 6, 12), (0, 6, 3, 8)]
+    runs = [(1, 4, 2, 4), (2, 4, 2, 4)] if quick else [(1, 5, 4, 8), (2, 5, 4, 8), (3, 6, 4, 8), (0, 5, 2, 6)]
     tot = {"events": 0, "traces": 0, "streams": {}, "over": 0}
     sample = None
     for maxs, threads, rounds, streams in runs:
@@ -167,7 +167,7 @@ def run(ctx):
                  distinct_nontrivial=len(d["classes"]),
                  rule="decision cases enumerated by TLC (Shell.tla part D, one VEC per initial state); a class = distinct "
                       "(enabled, password configuration, password given, oracle reason, oracle verdict, transcribed "
-                      "verdict); every case run against NewSession+Start, a seeded fifth (thorough: all) also against "
+                      "verdict); every case run against NewSession+Start, a seeded fifth (thorough: third) also against "
                       "NewPTYSession",
                  decision_cases=len(d["vecs"]), processes_started=d["started"], pty_cases=d["pty_cases"],
                  pty_processes_started=d["pty_started"], unauthorised_starts=d["nviol"],
